@@ -39,6 +39,9 @@ type Buf struct {
 type PageRef struct {
 	Buf  int `json:"buf"`
 	Page int `json:"page"`
+	// To: the GPU that requests this page if it is not the step's (a request may carry pages for
+	// several requesting GPUs: map[gpu][]vaddr); only meaningful in Step.More
+	To int `json:"to,omitempty"`
 }
 
 // Step is one migration request: page Page of buffer Buf is requested by GPU To.
@@ -58,7 +61,15 @@ type Step struct {
 }
 
 func (s Step) pages() []PageRef {
-	return append([]PageRef{{s.Buf, s.Page}}, s.More...)
+	return append([]PageRef{{Buf: s.Buf, Page: s.Page}}, s.More...)
+}
+
+// dest is the GPU a page of the step migrates to.
+func (s Step) dest(pr PageRef) int {
+	if pr.To != 0 {
+		return pr.To
+	}
+	return s.To
 }
 
 // DriverCase is one generated case of stage "driver".
@@ -152,19 +163,30 @@ func genDriverCase(t *rapid.T) DriverCase {
 						hk = 1
 					}
 					if k != key && hk == h && (c.MultiHop || !moved[k]) {
-						cands = append(cands, PageRef{bi, p})
+						cands = append(cands, PageRef{Buf: bi, Page: p})
 					}
 				}
 			}
 			want := rapid.IntRange(1, 3).Draw(t, "nmore")
 			for len(s.More) < want && len(cands) > 0 {
 				j := rapid.IntRange(0, len(cands)-1).Draw(t, "morepick")
-				s.More = append(s.More, cands[j])
+				pr := cands[j]
+				if c.GPUs > 2 && rapid.IntRange(0, 2).Draw(t, "otherrequester") == 0 {
+					// this page is requested by another GPU than the first page
+					pr.To = rapid.IntRange(1, c.GPUs-1).Draw(t, "moreto")
+					if pr.To >= h {
+						pr.To++
+					}
+					if pr.To == s.To {
+						pr.To = 0
+					}
+				}
+				s.More = append(s.More, pr)
 				cands = append(cands[:j], cands[j+1:]...)
 			}
 		}
 		for _, pr := range s.pages() {
-			host[[2]int{pr.Buf, pr.Page}] = s.To
+			host[[2]int{pr.Buf, pr.Page}] = s.dest(pr)
 			moved[[2]int{pr.Buf, pr.Page}] = true
 		}
 		s.Gap = rapid.SampledFrom([]int{0, 0, 1, 5, 30, 150}).Draw(t, "gap")
@@ -289,6 +311,7 @@ func RunDriverCase(c DriverCase) (res stats.Result) {
 	var migReqs []*migReq
 	// which command processors were shot down / restarted for the request in progress
 	shotDown, restarted, wantRestarts := map[uint64]int{}, map[uint64]int{}, map[uint64]int{}
+	shotPages := map[uint64][]uint64{} // per GPU: the virtual pages its shoot-down commands of the current request named
 	for g := 0; g < c.GPUs; g++ {
 		g := g
 		var replies []cpReply
@@ -305,6 +328,7 @@ func RunDriverCase(c DriverCase) (res stats.Result) {
 						rsp = protocol.NewRDMADrainRspToDriver(cpPorts[g], gpuPort)
 					case *protocol.ShootDownCommand:
 						shotDown[uint64(g+1)]++
+						shotPages[uint64(g+1)] = append(shotPages[uint64(g+1)], m.VAddr...)
 						rsp = protocol.NewShootdownCompleteRsp(cpPorts[g], gpuPort)
 					case *protocol.PageMigrationReqToCP:
 						mig = len(migReqs)
@@ -370,7 +394,10 @@ func RunDriverCase(c DriverCase) (res stats.Result) {
 		for _, va := range vas {
 			olds[va] = model[va]
 		}
-		lo, hi := c.deviceRange(s.To)
+		destOf := map[uint64]int{}
+		for _, pr := range s.pages() {
+			destOf[vaddrOf[pageKey{pr.Buf, pr.Page}]] = s.dest(pr)
+		}
 		news := map[uint64]vm.Page{}
 		for _, other := range allVAddrs {
 			pg, ok := pt.Find(pid, other)
@@ -385,13 +412,14 @@ func RunDriverCase(c DriverCase) (res stats.Result) {
 				continue
 			}
 			va, old := other, olds[other]
+			lo, hi := c.deviceRange(destOf[va])
 			switch {
 			case pg.PID != old.PID || pg.VAddr != old.VAddr || pg.PageSize != old.PageSize || !pg.Valid:
 				problems = append(problems, fmt.Sprintf("migration %d: entry of virtual page 0x%x damaged: %+v -> %+v", step, va, old, pg))
-			case pg.DeviceID != uint64(s.To):
-				problems = append(problems, fmt.Sprintf("migration %d: virtual page 0x%x is mapped to device %d afterwards, the requesting GPU is %d", step, va, pg.DeviceID, s.To))
+			case pg.DeviceID != uint64(destOf[va]):
+				problems = append(problems, fmt.Sprintf("migration %d: virtual page 0x%x is mapped to device %d afterwards, the requesting GPU is %d", step, va, pg.DeviceID, destOf[va]))
 			case pg.PAddr < lo || pg.PAddr >= hi || pg.PAddr%pageSize != 0:
-				problems = append(problems, fmt.Sprintf("migration %d: virtual page 0x%x is mapped to physical 0x%x, outside GPU %d's memory [0x%x,0x%x) or unaligned", step, va, pg.PAddr, s.To, lo, hi))
+				problems = append(problems, fmt.Sprintf("migration %d: virtual page 0x%x is mapped to physical 0x%x, outside GPU %d's memory [0x%x,0x%x) or unaligned", step, va, pg.PAddr, destOf[va], lo, hi))
 			case pg.PAddr == old.PAddr:
 				problems = append(problems, fmt.Sprintf("migration %d: virtual page 0x%x kept its physical page 0x%x", step, va, pg.PAddr))
 			}
@@ -448,7 +476,7 @@ func RunDriverCase(c DriverCase) (res stats.Result) {
 			}
 			used[found] = true
 			mr := migReqs[found]
-			if mr.gpu != s.To || mr.msg.ToWriteToPhysicalAddress != model[va].PAddr ||
+			if mr.gpu != destOf[va] || mr.msg.ToWriteToPhysicalAddress != model[va].PAddr ||
 				mr.msg.PageSize != pageSize || mr.msg.DestinationPMCPort != pmcPorts[hostGPU-1] {
 				pmcName := "<nil>"
 				if mr.msg.DestinationPMCPort != nil {
@@ -456,7 +484,7 @@ func RunDriverCase(c DriverCase) (res stats.Result) {
 				}
 				problems = append(problems, fmt.Sprintf(
 					"migration %d (virtual page 0x%x, GPU %d -> GPU %d): command processor %d was asked to copy %d bytes from 0x%x (PMC %s) to 0x%x; the page was at 0x%x on GPU %d (PMC %s) and is now mapped to 0x%x",
-					step, va, hostGPU, s.To, mr.gpu, mr.msg.PageSize, mr.msg.ToReadFromPhysicalAddress, pmcName,
+					step, va, hostGPU, destOf[va], mr.gpu, mr.msg.PageSize, mr.msg.ToReadFromPhysicalAddress, pmcName,
 					mr.msg.ToWriteToPhysicalAddress, old.PAddr, hostGPU, pmcPorts[hostGPU-1].Name(), model[va].PAddr))
 			}
 			if !mr.answered {
@@ -502,6 +530,22 @@ func RunDriverCase(c DriverCase) (res stats.Result) {
 						if bad || !sameSet(gl, current.CurrAccessingGPUs) {
 							problems = append(problems, fmt.Sprintf("migration %d: the request names GPUs %v as accessing the page, the GPUs shot down (GPU: times) were %v", step, current.CurrAccessingGPUs, shotDown))
 						}
+						// every accessing GPU was told to shoot down every page the request carries
+						for _, g := range current.CurrAccessingGPUs {
+							if shotDown[g] == 0 {
+								continue
+							}
+							named := map[uint64]bool{}
+							for _, va := range shotPages[g] {
+								named[va] = true
+							}
+							for _, va := range vas {
+								if !named[va] {
+									problems = append(problems, fmt.Sprintf("migration %d: GPU %d accesses the pages of the request (%x) but its shoot-down command names only %x: virtual page 0x%x migrates without being shot down there", step, g, vas, shotPages[g], va))
+									break
+								}
+							}
+						}
 						// (restart requests may still be on their way to slow command processors when the
 						// MMU is answered: they are compared at the end of the run)
 						for _, g := range current.CurrAccessingGPUs {
@@ -509,6 +553,7 @@ func RunDriverCase(c DriverCase) (res stats.Result) {
 						}
 					}
 					shotDown = map[uint64]int{}
+					shotPages = map[uint64][]uint64{}
 					// what mmu.Comp.processMigrationReturn does (for every page of the request)
 					for _, va := range vas {
 						if pg, ok := pt.Find(pid, va); ok {
@@ -563,7 +608,12 @@ func RunDriverCase(c DriverCase) (res stats.Result) {
 		req.PID = pid
 		req.PageSize = page.PageSize
 		req.CurrPageHostGPU = page.DeviceID
-		req.MigrationInfo = &vm.PageMigrationInfo{GPUReqToVAddrMap: map[uint64][]uint64{uint64(s.To): append([]uint64(nil), vas...)}}
+		byRequester := map[uint64][]uint64{}
+		for _, pr := range s.pages() {
+			g := uint64(s.dest(pr))
+			byRequester[g] = append(byRequester[g], vaddrOf[pageKey{pr.Buf, pr.Page}])
+		}
+		req.MigrationInfo = &vm.PageMigrationInfo{GPUReqToVAddrMap: byRequester}
 		req.CurrAccessingGPUs = uniq(accessing)
 		req.RespondToTop = true
 		if err := mmuPort.Send(req); err != nil {
@@ -607,12 +657,17 @@ func RunDriverCase(c DriverCase) (res stats.Result) {
 	again := false
 	seen := map[pageKey]bool{}
 	dstHasOther := false
-	severalPages := false
+	severalPages, severalRequesters := false, false
 	totalPages := 0
 	for _, s := range c.Steps {
 		totalPages += len(s.pages())
 		if len(s.More) > 0 {
 			severalPages = true
+		}
+		for _, pr := range s.More {
+			if pr.To != 0 {
+				severalRequesters = true
+			}
 		}
 		for _, pr := range s.pages() {
 			k := pageKey{pr.Buf, pr.Page}
@@ -629,6 +684,7 @@ func RunDriverCase(c DriverCase) (res stats.Result) {
 	}
 	add(again, "page-migrates-twice")
 	add(severalPages, "several-pages-per-request")
+	add(severalRequesters, "several-requesting-gpus-in-one-request")
 	add(dstHasOther, "destination-gpu-holds-other-buffers")
 	add(overlapped, "next-request-during-restart-phase")
 	add(c.Log2PageSize != 12, "page-size-not-4k")
@@ -728,7 +784,10 @@ func validateDriver(c DriverCase) error {
 			if h == 0 {
 				h = 1
 			}
-			if h == s.To {
+			if (j == 0 && pr.To != 0) || pr.To < 0 || pr.To > c.GPUs {
+				return fmt.Errorf("step %d: bad requester of a page", i)
+			}
+			if h == s.dest(pr) {
 				return fmt.Errorf("step %d migrates a page to its own host", i)
 			}
 			if j == 0 {
@@ -738,7 +797,7 @@ func validateDriver(c DriverCase) error {
 			}
 		}
 		for _, pr := range s.pages() {
-			host[[2]int{pr.Buf, pr.Page}] = s.To
+			host[[2]int{pr.Buf, pr.Page}] = s.dest(pr)
 		}
 	}
 	return nil
